@@ -13,6 +13,31 @@ let fnv (s : string) : int64 =
 
 exception Stop
 
+(* endpoint types of the harness (cfg ... <u64|i64|f64>).  The extracted model has endpoints in N; signed integers and
+   doubles are mapped to N by an ORDER-ISOMORPHIC code (the model only compares endpoints), and decoded for printing:
+     i64: two's complement bits with the sign bit flipped;
+     f64: IEEE bits, negative values bitwise complemented, others with the sign bit set (-0 is read as +0, NaN is skipped).
+   enc_int: the endpoint an enumeration index stands for (mirror of Codec::from_int in harness.cpp). *)
+type codec = { name : string; enc : string -> n option; dec : n -> string; of_int : int -> string }
+let u64_codec = { name = "u64"; enc = (fun s -> Some (n_of_string s)); dec = string_of_n; of_int = string_of_int }
+let i64_codec = {
+  name = "i64";
+  enc = (fun s -> Some (n_of_i64 (Int64.logxor (Int64.of_string s) Int64.min_int)));
+  dec = (fun c -> Printf.sprintf "%Ld" (Int64.logxor (i64_of_n c) Int64.min_int));
+  of_int = (fun e -> string_of_int (e - 4)) }
+let f64_str (f : float) = Printf.sprintf "%.17g" f
+let f64_codec = {
+  name = "f64";
+  enc = (fun s -> let f = float_of_string s in
+          if f <> f then None else
+          let f = if f = 0.0 then 0.0 else f in
+          let b = Int64.bits_of_float f in
+          Some (n_of_i64 (if Int64.compare b 0L < 0 then Int64.lognot b else Int64.logor b Int64.min_int)));
+  dec = (fun c -> let b = i64_of_n c in
+          f64_str (Int64.float_of_bits (if Int64.compare b 0L < 0 then Int64.logxor b Int64.min_int else Int64.lognot b)));
+  of_int = (fun e -> f64_str (float_of_int (e - 4) *. 0.25)) }
+let codec_of = function "i64" -> Some i64_codec | "f64" -> Some f64_codec | "u64" -> Some u64_codec | _ -> None
+
 (* output sink: normally stdout; in `enum` mode every canonical line is folded into a running FNV-1a digest *)
 let folding = ref false
 let digest = ref 0xcbf29ce484222325L
@@ -27,10 +52,13 @@ let rec body lines =
   match lines with
   | [] -> ()
   | hd :: ops ->
-    let hdw = (match words hd with [a; b; c] -> [a; b; c; "1"] | w -> w) in
+    let hdw = (match words hd with [a; b; c] -> [a; b; c; "1"; "u64"] | [a; b; c; d] -> [a; b; c; d; "u64"] | w -> w) in
     (match hdw with
-     | ["cfg"; n; "enum"; u; sh; nsh] -> run_enum (int_of_string n) (int_of_string u) (int_of_string sh) (int_of_string nsh)
-     | ["cfg"; p; mode; ev] when (try int_of_string p >= 1 && int_of_string p <= 200000 with _ -> false) ->
+     | ["cfg"; n; "enum"; u; sh; nsh] -> run_enum (int_of_string n) (int_of_string u) (int_of_string sh) (int_of_string nsh) u64_codec
+     | ["cfg"; n; "enum"; u; sh; nsh; ty] when codec_of ty <> None ->
+       (match codec_of ty with Some cd -> run_enum (int_of_string n) (int_of_string u) (int_of_string sh) (int_of_string nsh) cd | None -> ())
+     | ["cfg"; p; mode; ev; ty] when codec_of ty <> None && (try int_of_string p >= 1 && int_of_string p <= 200000 with _ -> false) ->
+       let cd = (match codec_of ty with Some cd -> cd | None -> u64_codec) in
        let pool = int_of_string p and hashmode = (mode = "hash") in
        let every = (match int_of_string_opt ev with Some e -> e | None -> 1) in
        let nlines = List.length ops and li = ref 0 in
@@ -49,7 +77,7 @@ let rec body lines =
          List.iter (fun (i, a) -> let k = int_of_n i in if k >= 0 && k < pool then mx.(k) <- Some a) (maxes !t);
          Array.iteri (fun i h ->
            Buffer.add_string b (Printf.sprintf " | %d:%s,%s,%s,%s,%s,%s,%s" i (s_opt h.h_parent) (s_opt h.h_left)
-             (s_opt h.h_right) (s_opt h.h_pred) (s_opt h.h_succ) (s_col h.h_color) (s_opt mx.(i)))) hooks;
+             (s_opt h.h_right) (s_opt h.h_pred) (s_opt h.h_succ) (s_col h.h_color) (match mx.(i) with None -> "-" | Some a -> cd.dec a))) hooks;
          let s = Buffer.contents b in
          if hashmode then emit (Printf.sprintf "h %016Lx" (fnv s)) else emit s in
        let dump () = if every <= 1 || !li mod every = 0 || !li = nlines then dump () in
@@ -60,15 +88,15 @@ let rec body lines =
          incr li;
          match words l with
          | ["i"; lo; hi; id] ->
-           (match valid_id id with
-            | Some i when not member.(i) && not !dirty ->
-              let x = mkI (n_of_string lo) (n_of_string hi) (n_of_int i) in
+           (match valid_id id, cd.enc lo, cd.enc hi with
+            | Some i, Some elo, Some ehi when not member.(i) && not !dirty ->
+              let x = mkI elo ehi (n_of_int i) in
               (match iinsert x !t with
                | None -> emit "assert"; raise Stop
                | Some t' ->
                  cases (insert_cases iless iagg x !t);
                  if root_max t' <> root_max !t then stat "@max_raised";
-                 t := t'; member.(i) <- true; lo_of.(i) <- n_of_string lo; dump ())
+                 t := t'; member.(i) <- true; lo_of.(i) <- elo; dump ())
             | _ -> emit "skip")
          | ["r"; id] ->
            (match valid_id id with
@@ -78,18 +106,19 @@ let rec body lines =
               if root_max t' <> root_max !t && t' <> E then stat "@max_shrunk";
               t := t'; member.(i) <- false; dump ()
             | _ -> emit "skip")
-         | ["q"; lb; ub] ->
-           let r = for_overlaps (n_of_string lb) (n_of_string ub) !t in
+         | ["q"; lb; ub] when cd.enc lb <> None && cd.enc ub <> None ->
+           let get o = (match o with Some v -> v | None -> N0) in
+           let r = for_overlaps (get (cd.enc lb)) (get (cd.enc ub)) !t in
            emit (String.concat " " ("o" :: List.map string_of_n r));
            if not !folding then stat (Printf.sprintf "@q %d %d" (List.length r) (size !t |> int_of_nat))
-         | ["p"; x] ->
-           let r = for_point (n_of_string x) !t in
+         | ["p"; x] when cd.enc x <> None ->
+           let r = for_point (match cd.enc x with Some v -> v | None -> N0) !t in
            emit (String.concat " " ("o" :: List.map string_of_n r));
            if not !folding then stat (Printf.sprintf "@q %d %d" (List.length r) (size !t |> int_of_nat))
          | ["w"; id; hi] ->
-           (match valid_id id with
-            | Some i when member.(i) && N.leb lo_of.(i) (n_of_string hi) ->
-              t := iset_hi (n_of_int i) (n_of_string hi) !t; dirty := true; dump ()
+           (match valid_id id, cd.enc hi with
+            | Some i, Some ehi when member.(i) && N.leb lo_of.(i) ehi ->
+              t := iset_hi (n_of_int i) ehi !t; dirty := true; dump ()
             | _ -> emit "skip")
          | ["a"; id] ->
            (match valid_id id with
@@ -108,15 +137,15 @@ let rec body lines =
      | _ -> emit "badcfg")
 
 (* self-enumeration, mirror of run_enum / enum_script in harness.cpp and of gen.enum_script *)
-and enum_script n u k =
+and enum_script n u k cd =
   let ivs = Array.of_list (List.concat (List.init u (fun lo -> List.init (u - lo) (fun d -> (lo, lo + d))))) in
   let niv = Array.length ivs in
   let seq = Array.make n (0, 0) in
   let x = ref k in
   for j = 0 to n - 1 do seq.(j) <- ivs.(!x mod niv); x := !x / niv done;
-  let ins = List.init n (fun j -> Printf.sprintf "i %d %d %d" (fst seq.(j)) (snd seq.(j)) j) in
-  let qs = List.concat (List.init (u + 1) (fun lb -> List.init (u + 1 - lb) (fun d -> Printf.sprintf "q %d %d" lb (lb + d))))
-           @ List.init (u + 1) (fun p -> Printf.sprintf "p %d" p) in
+  let ins = List.init n (fun j -> Printf.sprintf "i %s %s %d" (cd.of_int (fst seq.(j))) (cd.of_int (snd seq.(j))) j) in
+  let qs = List.concat (List.init (u + 1) (fun lb -> List.init (u + 1 - lb) (fun d -> Printf.sprintf "q %s %s" (cd.of_int lb) (cd.of_int (lb + d)))))
+           @ List.init (u + 1) (fun p -> Printf.sprintf "p %s" (cd.of_int p)) in
   let tail =
     if n >= 2 then begin
       let mx = ref 0 in
@@ -124,9 +153,9 @@ and enum_script n u k =
       let victim = if k mod 2 = 0 then !mx else (k / 2) mod n in
       (Printf.sprintf "r %d" victim) :: qs
     end else [] in
-  (Printf.sprintf "cfg %d full 1" n) :: (ins @ qs @ tail)
+  (Printf.sprintf "cfg %d full 1 %s" n cd.name) :: (ins @ qs @ tail)
 
-and run_enum n u shard nshards =
+and run_enum n u shard nshards cd =
   let niv = u * (u + 1) / 2 in
   let total = ref 1 in
   for _ = 1 to n do total := !total * niv done;
@@ -134,7 +163,7 @@ and run_enum n u shard nshards =
   let count = ref 0 in
   let k = ref shard in
   while !k < !total do
-    body (enum_script n u !k);
+    body (enum_script n u !k cd);
     incr count;
     if !count mod 1024 = 0 then Printf.printf "d %d %016Lx\n" !count !digest;
     k := !k + nshards
